@@ -1,6 +1,6 @@
 (* C15: lemmas about the handshake models (all inputs, no bounds). *)
 From Verif Require Import Lib.Bytes Json.Ast Fed.HandshakeCommon Fed.HandshakeJoin
-     Fed.HandshakeInvite Fed.HandshakePerform Fed.HandshakeSpec.
+     Fed.HandshakeInvite Fed.HandshakePerform Fed.HandshakePerformInvite Fed.HandshakeSpec.
 Open Scope N_scope.
 
 Lemma negb_false_true b : negb b = false -> b = true.
@@ -419,11 +419,9 @@ Definition effective_version (i : pj_input) : bytes :=
 
 Lemma perform_join_ok i used :
   perform_join i = PJJoined used ->
-  perform_join_admissible i = true /\
+  perform_join_admissible i used = true /\
   version_known (effective_version i) = true /\
-  pj_user_nil i = false /\ pj_room_nil i = false /\ pj_keyring_nil i = false /\
-  (used = true -> exists r, pj_remote i = Some r /\ pr_parse_ok r = true /\
-                  pr_membership r = Some s_join /\ pr_room_id r = pj_room_id i).
+  pj_user_nil i = false /\ pj_room_nil i = false /\ pj_keyring_nil i = false.
 Proof.
   unfold perform_join, perform_join_admissible, effective_version.
   destruct (pj_user_nil i); simpl; [discriminate|].
@@ -437,32 +435,44 @@ Proof.
      else if negb (pj_send_join_ok i) then PJError true false
      else if negb (contains_create (pj_auth_events i)) then PJError false true
      else if bytes_eqb ver v_pseudo_ids && negb (pj_store_ok i) then PJError false true
-     else if negb (pj_check_ok i) then PJError false true
+     else if negb (if match pj_remote i with
+                      | Some r => pr_parse_ok r && well_formed_join r (pj_room_id i) sender
+                      | None => false
+                      end then pj_check_remote i else pj_check_own i) then PJError false true
      else PJJoined match pj_remote i with
                    | Some r => pr_parse_ok r && well_formed_join r (pj_room_id i) sender
                    | None => false
                    end) = PJJoined used ->
-    pj_send_join_ok i && pj_check_ok i && existsb is_known_create (pj_auth_events i) = true /\
-    true = true /\ false = false /\ false = false /\ false = false /\
-    (used = true -> exists r, pj_remote i = Some r /\ pr_parse_ok r = true /\
-                    pr_membership r = Some s_join /\ pr_room_id r = pj_room_id i)).
+    pj_send_join_ok i && (if used then pj_check_remote i else pj_check_own i) &&
+    existsb is_known_create (pj_auth_events i) &&
+    (negb used ||
+     match pj_remote i with
+     | Some r => pr_parse_ok r &&
+                 match pr_membership r with Some m => bytes_eqb m s_join | None => false end &&
+                 bytes_eqb (pr_room_id r) (pj_room_id i)
+     | None => false
+     end) = true /\
+    true = true /\ false = false /\ false = false /\ false = false).
   { intros sender.
     destruct (pj_build_ok i); simpl; [|discriminate].
     destruct (pj_send_join_ok i); simpl; [|discriminate].
     destruct (contains_create (pj_auth_events i)) eqn:Ec; simpl; [|discriminate].
     destruct (bytes_eqb ver v_pseudo_ids && negb (pj_store_ok i)); simpl; [discriminate|].
-    destruct (pj_check_ok i); simpl; [|discriminate].
-    intro H. inversion H as [Hu]. rewrite (contains_create_exists _ Ec).
+    set (ru := match pj_remote i with
+               | Some r => pr_parse_ok r && well_formed_join r (pj_room_id i) sender
+               | None => false end).
+    destruct (if ru then pj_check_remote i else pj_check_own i) eqn:Ck; simpl; [|discriminate].
+    intro H. assert (ru = used) by congruence. subst used.
+    rewrite Ck, (contains_create_exists _ Ec). simpl.
     repeat split.
-    destruct (pj_remote i) as [r|]; [|discriminate].
-    intros Hused. exists r. split; [reflexivity|].
-    unfold well_formed_join in Hused.
-    destruct (pr_parse_ok r); simpl in Hused; [|discriminate].
-    destruct (pr_membership r) as [m|]; [|discriminate].
-    apply andb_true_iff in Hused. destruct Hused as [Hused _].
-    apply andb_true_iff in Hused. destruct Hused as [Hm Hr].
-    apply bytes_eqb_eq in Hm. apply bytes_eqb_eq in Hr. subst m.
-    repeat split; exact Hr. }
+    unfold ru. destruct (pj_remote i) as [r|]; [|reflexivity].
+    unfold well_formed_join.
+    destruct (pr_parse_ok r); simpl; [|reflexivity].
+    destruct (pr_membership r) as [m|]; simpl; [|reflexivity].
+    destruct (bytes_eqb m s_join); simpl; [|reflexivity].
+    destruct (bytes_eqb (pr_room_id r) (pj_room_id i)); simpl; [|reflexivity].
+    destruct (pr_state_key r) as [k|]; [|reflexivity].
+    destruct (bytes_eqb k sender); reflexivity. }
   destruct (bytes_eqb (pj_resp_version i) v_pseudo_ids).
   - destruct (pj_sender_id i) as [s|]; [|discriminate].
     destruct (pj_mapping_sign_ok i); simpl; [|discriminate].
@@ -634,26 +644,37 @@ Proof.
     exists cur. split; [reflexivity|]. intro E. subst cur. discriminate.
 Qed.
 
-Lemma perform_join_admissible_meaning i :
-  perform_join_admissible i = true ->
-  pj_make_join_ok i = true /\ pj_send_join_ok i = true /\ pj_check_ok i = true /\
-  exists e, In e (pj_auth_events i) /\ pa_type e = m_room_create /\ pa_state_key e = Some [] /\
-            pa_content_ok e = true /\
-            version_known (match pa_room_version e with [] => v_1 | v => v end) = true.
+Lemma perform_join_admissible_meaning i used :
+  perform_join_admissible i used = true ->
+  pj_make_join_ok i = true /\ pj_send_join_ok i = true /\
+  (if used then pj_check_remote i else pj_check_own i) = true /\
+  (exists e, In e (pj_auth_events i) /\ pa_type e = m_room_create /\ pa_state_key e = Some [] /\
+             pa_content_ok e = true /\
+             version_known (match pa_room_version e with [] => v_1 | v => v end) = true) /\
+  (used = true -> exists r, pj_remote i = Some r /\ pr_parse_ok r = true /\
+                  pr_membership r = Some s_join /\ pr_room_id r = pj_room_id i).
 Proof.
   unfold perform_join_admissible. intro H.
+  apply andb_true_iff in H. destruct H as [H Hu].
   apply andb_true_iff in H. destruct H as [H Hex].
   apply andb_true_iff in H. destruct H as [H Hc].
   apply andb_true_iff in H. destruct H as [Hm Hs].
-  repeat split; try assumption.
-  apply existsb_exists in Hex. destruct Hex as [e [Hin He]].
-  unfold is_known_create in He.
-  apply andb_true_iff in He. destruct He as [He Hv].
-  apply andb_true_iff in He. destruct He as [He Hco].
-  apply andb_true_iff in He. destruct He as [Ht Hk].
-  destruct (pa_state_key e) as [k|] eqn:Ek; [|discriminate].
-  apply bytes_eqb_eq in Hk. subst k.
-  exists e. repeat split; try assumption. apply bytes_eqb_eq. exact Ht.
+  split; [exact Hm|]. split; [exact Hs|]. split; [exact Hc|]. split.
+  - apply existsb_exists in Hex. destruct Hex as [e [Hin He]].
+    unfold is_known_create in He.
+    apply andb_true_iff in He. destruct He as [He Hv].
+    apply andb_true_iff in He. destruct He as [He Hco].
+    apply andb_true_iff in He. destruct He as [Ht Hk].
+    destruct (pa_state_key e) as [k|] eqn:Ek; [|discriminate].
+    apply bytes_eqb_eq in Hk. subst k.
+    exists e. repeat split; try assumption. apply bytes_eqb_eq. exact Ht.
+  - intro U. subst used. simpl in Hu.
+    destruct (pj_remote i) as [r|]; [|discriminate].
+    apply andb_true_iff in Hu. destruct Hu as [Hu Hr].
+    apply andb_true_iff in Hu. destruct Hu as [Hp Hmm].
+    destruct (pr_membership r) as [m|] eqn:Em; [|discriminate].
+    apply bytes_eqb_eq in Hmm. apply bytes_eqb_eq in Hr. subst m.
+    exists r. split; [reflexivity|]. split; [exact Hp|]. split; [exact Em|exact Hr].
 Qed.
 
 Lemma version_check_via_spec ver localname room sender d u log :
@@ -697,4 +718,101 @@ Proof.
     exists sender. split; [exact Hs|]. split; [reflexivity|].
     destruct (jget (bs "state_key") ev) as [[| | |sk| |]|]; try discriminate.
     inversion Hk; subst. reflexivity.
+Qed.
+
+(* ---------------------------------------------------------------------------------- *)
+(* perform_invite                                                                       *)
+(* ---------------------------------------------------------------------------------- *)
+
+Definition pi_core_spec (i : pi_input) : bool :=
+  match pi_latest_q i with Some le => pl_room_exists le | None => false end &&
+  pi_build_ok i && pi_provider_ok i && pi_allowed_ok i && (pi_target_local i || pi_send_ok i).
+
+Lemma pi_core_ok i state log :
+  pir_out (pi_core i state log) = OOk ->
+  pi_core_spec i = true /\
+  (pi_target_local i = true ->
+   exists le v, pi_latest_q i = Some le /\
+     pir_event (pi_core i state log) =
+       Some (PIBuilt (pi_invitee i) (pl_depth le) (truncate 10 (pl_refs le)) (truncate 20 (pl_prev le))
+                     [pi_inviter_domain i; pi_invitee_domain i] v)) /\
+  (pi_target_local i = false -> pir_event (pi_core i state log) = Some PIRemote).
+Proof.
+  unfold pi_core, pi_core_spec.
+  destruct (pi_needed i) as [[|t ts]|]; simpl; try discriminate.
+  destruct (pi_latest_q i) as [le|]; simpl; [|discriminate].
+  destruct (pl_room_exists le); simpl; [|discriminate].
+  destruct (pl_state_ok le); simpl; [|discriminate].
+  destruct (pl_refs_ok le); simpl; [|discriminate].
+  destruct (pi_build_ok i); simpl; [|discriminate].
+  destruct (pi_provider_ok i); simpl; [|discriminate].
+  destruct (pi_allowed_ok i); simpl; [|discriminate].
+  destruct (pi_target_local i); simpl.
+  - intros _. split; [reflexivity|]. split; [|discriminate].
+    intros _. eexists. eexists. split; reflexivity.
+  - destruct (pi_send_ok i); simpl; [|discriminate].
+    intros _. split; [reflexivity|]. split; [discriminate|reflexivity].
+Qed.
+
+Lemma perform_invite_ok i :
+  pir_out (perform_invite i) = OOk ->
+  perform_invite_admissible i = true /\
+  (pi_target_local i = true ->
+   exists le v, pi_latest_q i = Some le /\
+     pir_event (perform_invite i) =
+       Some (PIBuilt (pi_invitee i) (pl_depth le) (truncate 10 (pl_refs le)) (truncate 20 (pl_prev le))
+                     [pi_inviter_domain i; pi_invitee_domain i] v)) /\
+  (pi_target_local i = false -> pir_event (perform_invite i) = Some PIRemote).
+Proof.
+  assert (W : forall state log, pir_out (pi_with_state i state log) = OOk ->
+    perform_invite_admissible i = true /\
+    (pi_target_local i = true ->
+     exists le v, pi_latest_q i = Some le /\
+       pir_event (pi_with_state i state log) =
+         Some (PIBuilt (pi_invitee i) (pl_depth le) (truncate 10 (pl_refs le)) (truncate 20 (pl_prev le))
+                       [pi_inviter_domain i; pi_invitee_domain i] v)) /\
+    (pi_target_local i = false -> pir_event (pi_with_state i state log) = Some PIRemote)).
+  { intros state log. unfold pi_with_state, perform_invite_admissible.
+    destruct (pi_set_unsigned_ok i); simpl; [|discriminate].
+    destruct (version_known (pi_version i)); simpl; [|discriminate].
+    destruct (pi_sender_id i) as [| |sid]; simpl; [discriminate| |].
+    - intro H. destruct (pi_core_ok i _ _ H) as [A B]. split; [|exact B].
+      unfold pi_core_spec in A. exact A.
+    - destruct (pi_membership i) as [cur|]; simpl; [|discriminate].
+      destruct (bytes_eqb cur s_join); simpl; [discriminate|].
+      intro H. destruct (pi_core_ok i _ _ H) as [A B]. split; [|exact B].
+      unfold pi_core_spec in A. exact A. }
+  unfold perform_invite.
+  destruct (bytes_eqb (pi_version i) v_pseudo_ids); simpl; [discriminate|].
+  destruct (pi_given_state i) as [|x st].
+  - destruct (pi_generated_state i) as [| |st]; simpl; [discriminate| |]; apply W.
+  - apply W.
+Qed.
+
+Lemma firstn_le {A} n (l : list A) : (length (firstn n l) <= n)%nat.
+Proof. apply firstn_le_length. Qed.
+
+(* ---------------------------------------------------------------------------------- *)
+(* HandleInviteV3                                                                       *)
+(* ---------------------------------------------------------------------------------- *)
+
+Lemma handle_invite_v3_ok x i :
+  er_out (handle_invite_v3 x i) = OOk ->
+  invite_v3_admissible x i = true /\
+  exists sid v, v3_sender_id x = Some sid /\
+    er_event (handle_invite_v3 x i) = Some (set_invite_room_state v (v3_built x sid)).
+Proof.
+  unfold handle_invite_v3, invite_v3_admissible.
+  destruct (version_known (iv_version i)); simpl; [|discriminate].
+  destruct (bytes_eqb (v3_proto_room x) (iv_req_room i)); simpl; [|discriminate].
+  destruct (bytes_eqb (v3_proto_type x) m_room_member); simpl; [|discriminate].
+  destruct (v3_proto_membership x) as [m|] eqn:Epm; simpl; [|discriminate].
+  destruct (bytes_eqb m s_invite); simpl; [|discriminate].
+  destruct (v3_sender_id x) as [sid|]; simpl; [|discriminate].
+  destruct (v3_build_ok x); simpl; [|discriminate].
+  intro H. apply invite_common_ok in H. destruct H as [[known [Ek Hm]] [v B]].
+  split.
+  - rewrite Ek. destruct known; [|reflexivity].
+    destruct (Hm eq_refl) as [cur [Ec En]]. rewrite Ec, En. reflexivity.
+  - exists sid, v. split; [reflexivity|]. unfold v3_built in *. rewrite ?Epm in *. exact B.
 Qed.
